@@ -45,7 +45,7 @@ def expand(word):
             out.append(("raw", sym[4:]))
         elif sym.startswith('"'):
             out.append(("str", sym))
-        elif sym.startswith("text:"):
+        elif sym[:5].lower() == "text:":
             out.append(("ml", sym))
         elif " " in sym:
             for s in sym.split():
